@@ -271,6 +271,16 @@ class Kernel(object):
                     self._kbaton.acquire()
         for t in self.tasks:
             t.thread.join(5.0)
+        if not getattr(self, "_counted", False):
+            # reach counters for the evidence file (not part of the event log / digest)
+            self._counted = True
+            c = self.sim.counts
+            c["kernel.runs"] += 1
+            c["kernel.tasks"] += len(self.tasks)
+            c["kernel.scheduling_steps"] += self.steps
+            c["kernel.context_switches"] += self.switches
+            c["kernel.preemptions"] += self.preemptions
+            c["kernel.line_events"] += self.line_events
 
     # ---- line level pre-emption (sys.monitoring) -----------------------------------------------------
     def enable_line_preemption(self, modules, p):
